@@ -15,6 +15,7 @@ CONSTANTS Classes,      \* listing classes
           HealthClasses,
           Formats,      \* provider listing formats explored
           Fields, ValueClasses,  \* metrics tails: which field gets which kind of value
+          FleetClasses, \* GEN: what the OTHER endpoint of a two-endpoint discovery round answers
           Mutations     \* GEN: how many byte-level mutations of a well-formed listing per format (class "mutated")
 
 VARIABLES last,         \* model names attributed to the endpoint under test
@@ -41,6 +42,9 @@ Dump(perEp, byModel, count) ==
 Probe(st) == st = 200 /\ UNCHANGED vars
 \* a health answer of any class ends with a stored status
 HealthDone(status) == status \in {"healthy", "unhealthy", "offline", "busy"} /\ UNCHANGED vars
+\* a discovery round over the whole fleet: what ONE endpoint said (class c) is that endpoint's business -- the
+\* bystander's catalogue is its own listing afterwards, and it is neither blamed for a failure nor switched off
+Fleet(bystander, blamed, disabled) == bystander = {"m8", "m9"} /\ blamed = 0 /\ ~disabled /\ UNCHANGED vars
 \* a metrics tail: every extracted number is absent or finite
 Metrics(kinds) == (\A i \in 1..Len(kinds) : kinds[i] \in {"absent", "finite"}) /\ UNCHANGED vars
 
@@ -55,6 +59,7 @@ GenInit == /\ last = {} /\ phase = "idle" /\ offered = {}
            /\ \/ \E c \in Classes : \E f \in Formats : scn = [kind |-> "listing", cls |-> c, format |-> f]
               \/ \E k \in 1..Mutations : \E f \in Formats : scn = [kind |-> "listing", cls |-> "mutated", format |-> f, k |-> k]
               \/ \E h \in HealthClasses : scn = [kind |-> "health", cls |-> h]
+              \/ \E c \in FleetClasses : scn = [kind |-> "fleet", cls |-> c]
               \/ \E f \in Fields : \E v \in ValueClasses : \E p \in Formats : scn = [kind |-> "metrics", field |-> f, value |-> v, provider |-> p]
 GenNext == FALSE /\ UNCHANGED vars
 Export == PrintT(<<"SCN", ToJson(scn)>>)
